@@ -28,14 +28,17 @@ func Ingest(dir string, content io.Reader) (path string, ingestErr error) {
 	if err != nil {
 		return "", fmt.Errorf("failed to create ingest file: %w", err)
 	}
-	path = tempFile.Name()
+	tempPath := tempFile.Name()
+	path = tempPath
 	defer func() {
 		if err := tempFile.Close(); err != nil && ingestErr == nil {
 			ingestErr = fmt.Errorf("failed to close ingest file: %w", err)
 		}
 		// remove the temp file in case of error.
+		// Note: the error returns below reset the named result path to "",
+		// so the file name must not be taken from it.
 		if ingestErr != nil {
-			os.Remove(path)
+			os.Remove(tempPath)
 		}
 	}()
 
